@@ -28,7 +28,7 @@ use crate::{
     connection_provider::{ConnectionProvider, TlsConfig},
     name_server::NameServer,
     name_server_pool::{NameServerPool, NameServerTransportState, PoolContext},
-    net::DnsHandle,
+    net::{DnsError, DnsHandle, ForwardNSData, NetError},
     proto::{
         access_control::{AccessControlSet, AccessControlSetBuilder},
         op::{DnsRequestOptions, Message, Query},
@@ -440,6 +440,9 @@ impl<P: ConnectionProvider> RecursorDnsHandle<P> {
             Some(Ok(r)) => r,
             Some(Err(error)) => {
                 warn!(?query, %error, "lookup error");
+                // Negative responses carry records too (SOA, authority section, referral NS and
+                // glue): apply the bailiwick rule to them before they are cached or returned.
+                let error = strip_out_of_bailiwick(error, &zone);
                 self.response_cache.insert(query, Err(error.clone()), now);
                 return Err(RecursorError::from(error));
             }
@@ -883,6 +886,51 @@ mod for_dnssec {
             .boxed()
         }
     }
+}
+
+/// Drops the out-of-bailiwick records from the payload of a `NoRecordsFound` error.
+fn strip_out_of_bailiwick(mut error: NetError, zone: &Name) -> NetError {
+    let NetError::Dns(DnsError::NoRecordsFound(no_records)) = &mut error else {
+        return error;
+    };
+
+    if matches!(&no_records.soa, Some(soa) if !is_subzone(zone, &soa.name)) {
+        debug!(%zone, "dropping out of bailiwick SOA from negative response");
+        no_records.soa = None;
+        no_records.negative_ttl = None;
+    }
+
+    if let Some(ns) = no_records.ns.take() {
+        let kept = ns
+            .iter()
+            .filter(|forward| is_subzone(zone, &forward.ns.name))
+            .map(|forward| ForwardNSData {
+                ns: forward.ns.clone(),
+                glue: forward
+                    .glue
+                    .iter()
+                    .filter(|glue| is_subzone(zone, &glue.name))
+                    .cloned()
+                    .collect(),
+            })
+            .collect::<Vec<_>>();
+        if !kept.is_empty() {
+            no_records.ns = Some(kept.into());
+        }
+    }
+
+    if let Some(authorities) = no_records.authorities.take() {
+        let kept = authorities
+            .iter()
+            .filter(|record| is_subzone(zone, &record.name))
+            .cloned()
+            .collect::<Vec<_>>();
+        if !kept.is_empty() {
+            no_records.authorities = Some(kept.into());
+        }
+    }
+
+    error
 }
 
 fn recursor_opts(
